@@ -26,6 +26,7 @@ func init() {
 			{"C12-R2", "catch-all detection sees every restriction", c12r2},
 			{"C12-R3", "rule order preserved", c12r3},
 			{"C12-R4", "per-call route memos are keyed by everything that varies", c12r4},
+			{"C12-R5", "the source pre-filter is a conjunction of gateway / labels / namespace", c12r5},
 		},
 	})
 }
@@ -323,5 +324,111 @@ func c12r4(c *Ctx) {
 	c.Check("per-call memo sites found in the route/listener builders", token.NoPos, n >= 2, "fewer memo sites than confirmed by hand (buildGatewayHTTPRouteConfig: virtual services per gateway, routes per gateway and virtual service)")
 	why := memoSelfTest()
 	c.Check("positive control: the memo detector reports the incomplete keys of its fixture and not the complete ones", token.NoPos, why == "", why)
+	c.Floor(4)
+}
+
+// C12-R5: the source pre-filter is a conjunction. A rule's match is kept for a proxy only if ALL its source conditions
+// hold: the mesh-gateway list names one of the proxy's gateways, or both the source labels select the proxy and the
+// source namespace (when given) is the proxy's. In sourceMatchHTTP every return that can be true lies under the
+// `match == nil` edge, under a gateway-hit edge, or under the true edge of the label test; and a return under the label
+// test only is also decided by the namespace (its value is computed from SourceNamespace or it lies behind a test of it).
+// An early `return namespace matches` in front of the label test keeps a rule with both conditions for every proxy of
+// the namespace; the rule usually has no other condition, counts as catch-all and cuts off everything after it.
+func c12r5(c *Ctx) {
+	p := c.P
+	fn := p.Func("pilot/pkg/networking/core/route", "", "sourceMatchHTTP")
+	match := fn.Params[0]
+	fromField := func(v ssa.Value, field, getter string) bool {
+		seen := map[ssa.Value]bool{}
+		var walk func(v ssa.Value, d int) bool
+		walk = func(v ssa.Value, d int) bool {
+			if v == nil || seen[v] || d > 8 {
+				return false
+			}
+			seen[v] = true
+			if f := fieldOfLoad(v); f != nil && f.Name() == field {
+				return true
+			}
+			switch x := v.(type) {
+			case *ssa.Call:
+				if o := calleeObj(x); o != nil && o.Name() == getter {
+					return true
+				}
+				for _, a := range x.Call.Args {
+					if walk(a, d+1) {
+						return true
+					}
+				}
+			case *ssa.ChangeType:
+				return walk(x.X, d+1)
+			case *ssa.Convert:
+				return walk(x.X, d+1)
+			case *ssa.BinOp:
+				return walk(x.X, d+1) || walk(x.Y, d+1)
+			case *ssa.UnOp:
+				return walk(x.X, d+1)
+			case *ssa.Phi:
+				for _, e := range x.Edges {
+					if walk(e, d+1) {
+						return true
+					}
+				}
+			}
+			return false
+		}
+		return walk(v, 0)
+	}
+	var nilE, gwE, lblE, nsE []Edge
+	for _, i := range allIfs(fn) {
+		if x, eq, ok := nilCmp(i.Cond); ok && x == ssa.Value(match) {
+			idx := 1
+			if eq {
+				idx = 0
+			}
+			nilE = append(nilE, Edge{i.Block(), idx})
+			continue
+		}
+		v, neg := stripNot(i.Cond)
+		tIdx := 0
+		if neg {
+			tIdx = 1
+		}
+		if call, ok := v.(*ssa.Call); ok {
+			if o := calleeObj(call); o != nil {
+				switch {
+				case o.Name() == "Contains" || o.Name() == "ContainsAny":
+					gwE = append(gwE, Edge{i.Block(), tIdx})
+				case o.Name() == "SubsetOf" && len(call.Call.Args) > 0 && fromField(call.Call.Args[0], "SourceLabels", "GetSourceLabels"):
+					lblE = append(lblE, Edge{i.Block(), tIdx})
+				}
+			}
+		}
+		if b, ok := v.(*ssa.BinOp); ok && (fromField(b.X, "SourceNamespace", "GetSourceNamespace") || fromField(b.Y, "SourceNamespace", "GetSourceNamespace")) {
+			nsE = append(nsE, Edge{i.Block(), 0}, Edge{i.Block(), 1})
+		}
+	}
+	c.Check("sourceMatchHTTP tests the source labels", fn.Pos(), len(lblE) >= 1, "no SubsetOf test of the match's source labels found")
+	n := 0
+	for _, b := range fn.Blocks {
+		r, ok := b.Instrs[len(b.Instrs)-1].(*ssa.Return)
+		if !ok || len(r.Results) != 1 {
+			continue
+		}
+		v := retVal(r, 0)
+		if k, ok := constBool(v); ok && !k {
+			continue
+		}
+		n++
+		all := append(append(append([]Edge{}, nilE...), gwE...), lblE...)
+		c.Check("a kept match passed the gateway list or the source labels", r.Pos(), underEdges(fn, b, all),
+			"sourceMatchHTTP can keep a match for a proxy on a path that passed neither the gateway list nor the source-label test: a rule with sourceLabels (and sourceNamespace) is emitted for proxies its labels do not select, and - having no other condition - is taken for a catch-all that cuts off every later rule for them")
+		if underEdges(fn, b, append(append([]Edge{}, nilE...), gwE...)) {
+			continue
+		}
+		c.Check("a match kept for its source labels is also decided by the source namespace", r.Pos(),
+			fromField(v, "SourceNamespace", "GetSourceNamespace") || underEdges(fn, b, nsE),
+			"sourceMatchHTTP keeps a match whose source labels select the proxy without looking at sourceNamespace: a rule for workloads of another namespace is emitted for same-labelled proxies here")
+	}
+	c.Check("sourceMatchHTTP has positive answers", fn.Pos(), n >= 2, "fewer non-false returns than expected")
 	c.Floor(4)
 }
